@@ -117,3 +117,66 @@ def k1_peephole_compile(res, tier):
         return {'ok': isinstance(r, EnumV) and r.tag == 0}
     _finish(res, e, e.explore(path), 'C15.K1:peephole_compile:', replay=dict(kind='lay', source=_many_labels(),
             bad_re=r'not yet implemented|panicked', note='more than 65535 jump labels in one function'))
+
+
+# ---------------------------------------------------------------------------------------------- K3 break / continue belong to a loop of the SAME function
+F51_SRC = 'let i = 0;\nwhile i < 2 {\n  let f = || { break; };\n  i = i + 1;\n}\nprint(i);\n'
+F51_REPLAY = dict(kind='lay', source=F51_SRC, bad_exit=[101, 134, -6], bad_re='panicked')
+
+
+@obligation('C15.K3.function_bodies_start_outside_loops', 'C15', programs=('vm',), also=('C16',))
+def k3_loop_depth(res, tier):
+    """Parser::function and Parser::lambda: the body of a nested function is parsed with the loop depth reset to 0 (a `break` /
+    `continue` in it is rejected by the parser unless the body has a loop of its own: the compiler of the nested function has no
+    loop to jump to and relies on this - Compiler::break_ / continue_ `expect` it) and the depth of the enclosing function is
+    restored afterwards"""
+    from mirsym.engine import Engine
+    P = get_program('vm')
+    res.bounds = {'enclosing loop depth': 'any u16', 'body': 'opaque (any parse result)'}
+    PARSER = 'compiler::parser::Parser'
+    sd = P.struct_def(PARSER)
+    if sd is None:
+        res.inconclusive('Parser struct not found')
+        return
+    ix = {n: i for i, (n, _) in enumerate(sd.fields)}
+    for fname in ('function', 'lambda'):
+        e = Engine(P, loop_bound=4, timeout_s=120, max_depth=40, max_paths=400)
+        f = P.lookup('compiler::parser::Parser::' + fname)
+
+        def m_body(e_, a, c):
+            p = a[0]
+            while isinstance(p, Ref):
+                p = p.cell.get(e_)
+            e_.path_state.setdefault('depth_at_body', []).append(p.field(e_, ix['loop_depth'], 'u16').get(e_))
+            return e_.fresh(norm_ty(c.dest_ty), e_.fresh_name('body'))
+        e.model(r'^(compiler::)?(parser::)?Parser::(fun_body|block)$', m_body)
+        e.allow_havoc(r'^(compiler::)?(parser::)?Parser::(call_signature|call_params|vec|table|node|atom_expr|consume|consume_basic|match_kind|check|error|error_at|error_current|advance|type_params|begin_scope|end_scope|declare_variable|define_variable|scope|push_table|pop_table)$',
+                      r'^<.* as (std::clone::|core::clone::)?Clone>::clone$', r'^(compiler::ir::)?(ast::)?\w+::new$', r'^(compiler::ir::)?(token::)?Token::\w+$', r'^(std::mem::|core::mem::)?replace$',
+                      r'^(std::result::|core::result::)?Result::(map|map_err|and_then|or_else)$', r'^(std|alloc|core)::fmt::', r'Arguments::', r'^format$', r'^must_use$', r'^<(std::string::|alloc::string::)?String as .*>::\w+$', r'^(std::string::|alloc::string::)?String::\w+$',
+                      r'^(std::option::|core::option::)?Option::(map|and_then|take|replace|unwrap_or|unwrap_or_else|cloned)$')
+
+        def path(e, f=f, fname=fname):
+            p = e.fresh(PARSER, 'parser')
+            d0 = p.field(e, ix['loop_depth'], 'u16').get(e)
+            args = [Ref(Cell(p))]
+            for (an, aty) in f.args[1:]:
+                args.append(e.fresh(aty, 'arg_' + an))
+            e.call(f, args)
+            seen = e.path_state.get('depth_at_body', [])
+            for d in seen:
+                e.check(d == 0, f'Parser::{fname}: the body of the nested function is parsed with loop depth 0', {'enclosing_depth': str(d0)})
+            d1 = p.field(e, ix['loop_depth'], 'u16').get(e)
+            if seen:
+                e.check(d1 == d0, f'Parser::{fname}: the loop depth of the enclosing function is restored once the body was parsed')
+            return {'fn': fname, 'bodies': len(seen)}
+        results = e.explore(path)
+        for r in results:
+            for lab, ok, info in list(r.checks):
+                if not ok and 'parsed with loop depth 0' in lab:
+                    res.fail(f'C15.K3:{fname}: the body of a nested function inherits the enclosing loop depth',
+                             f'Parser::{fname} does not reset loop_depth: `break` / `continue` inside the nested function is accepted when the function sits in a loop, and the '
+                             'compiler of the nested function panics (expect: "Parser should have caught the loop constraint")', info, replay=F51_REPLAY)
+                    r.checks.remove((lab, ok, info))
+        summarize_paths(res, e, results, lambda r: r.info if isinstance(r.info, dict) else None, key_prefix=f'C15.K3:{fname}:', unwind_ok=True)
+        if not any(isinstance(r.info, dict) and r.info.get('bodies') for r in results if r.kind == 'ok'):
+            res.inconclusive(f'vacuous: Parser::{fname} never reached fun_body')
